@@ -38,7 +38,7 @@ FullTy   == {"withNewMessage", "goWrapError", "uWrapFull"}
 \* Leaves (s is the whole text).
 LeafTy   == {"leafError", "goErr", "ctxDeadline", "errno", "opaqueErrno", "pkgFundamental",
              "unimplementedError", "barrierErr", "uPtrLeaf", "uValLeaf", "uRegLeaf",
-             "uProtoLeaf", "uIsLeaf", "uIsIdLeaf", "uSafeMsgLeaf", "grpcStatus",
+             "uProtoLeaf", "uIsLeaf", "uIsIdLeaf", "uSafeMsgLeaf", "uMaybe", "grpcStatus",
              "gogoStatus", "runtimeErr", "opaqueLeaf"}
 \* Multi-cause nodes: text = branch texts joined by NL ...
 JoinTy   == {"joinError", "goJoin"}
@@ -50,9 +50,10 @@ WrapTy  == AnnotTy \cup PrefixTy \cup AlwaysPrefixTy \cup FullTy \cup {"opaqueWr
 MultiTy == JoinTy \cup MultiOwnTy
 AllTy   == WrapTy \cup MultiTy \cup LeafTy
 
-IsWrap(v)  == v.ty \in WrapTy
+\* "uMaybe" is a user type that is sometimes a leaf, sometimes a wrapper
 IsMulti(v) == v.ty \in MultiTy
-IsLeaf(v)  == v.ty \in LeafTy
+IsWrap(v)  == v.ty \in WrapTy \/ (v.ty = "uMaybe" /\ Len(v.kids) = 1)
+IsLeaf(v)  == ~IsWrap(v) /\ ~IsMulti(v)
 
 \* Types that only expose Cause(), invisible to the standard library.
 CauseOnlyTy == {"uWrapC"}
@@ -69,6 +70,7 @@ Text(v) ==
     [] v.ty \in AlwaysPrefixTy -> v.s \o <<SEP>> \o Text(v.kids[1])
     [] v.ty = "opaqueWrapper" -> IF v.o.full THEN v.s ELSE WithPfx(v.s, Text(v.kids[1]))
     [] v.ty \in JoinTy   -> JoinWith(TextsOf(v.kids), NL)
+    [] v.ty = "uMaybe"   -> IF v.kids = <<>> THEN v.s ELSE v.s \o <<SEP>> \o Text(v.kids[1])
     [] OTHER             -> v.s
 
 ---------------------------------------------------------------------------
